@@ -22,6 +22,7 @@ import (
 func TestMain(m *testing.M) {
 	vh.Rule("rapid: a response from a grammar over all server-side package types and data types (result sets with narrow/wide formats, ORDERBY, rows incl. NULLs, PARAMFMT/PARAMS, RETURNSTATUS, DONEPROC/DONEINPROC, MSG, LOGINACK, CAPABILITY, DYNAMIC ack, CURINFO, ERROR, interleaved ENVCHANGE/EED, terminated by DONE(FINAL), a non-final DONE or nothing) x a cut set (none, single, every byte, few, random density; incl. empty bodies = header-only packets) x for the byte level a partition of the TCP byte stream into read() results (whole, per packet, 1..7-byte reads, random, header-splitting; optionally io.EOF reported together with the last bytes), extra status bits (ATTNACK, EVENT) next to EOM in the packet headers, the client's own request completing only after the first response packets have arrived; run A = one packet/one read, run B = fragmented; exhaustive: every single cut (and every pair of cuts, thorough) of every response <= 160 bytes drawn, all 2^(n-1) cut sets of 5 streams of <= 15 bytes. Oracle: delivered package sequences of A and B are reflect.DeepEqual (same build), A equals the delivery model field by field, no error on the channel or connection error queue. Non-trivial: a cut falls strictly inside a package or a read splits a packet header; distinct by (response, cuts, reads)")
 	vh.Assume("server packets carry type RESPONSE on channel 0 with EOM on the last packet; non-informational EED only between statements (the library resolves a row's format through the last delivered package); a DONE-family package with status 0 only as the last delivered package; responses are kept short (strings <= 40 bytes) so that cut sets can be enumerated")
+	vh.QuietLog()
 	vh.Main(m, "C02")
 }
 
@@ -38,6 +39,8 @@ type c02Case struct {
 	// SendAt > 0: (packet level) the client's request completes (SendPackage returns) only
 	// when SendAt packets of the response have already arrived - a fast server
 	SendAt int `json:"request_completes_after_packets,omitempty"`
+	// Log: the fragmented run has Info.DebugLogPackages on (every package received is printed)
+	Log bool `json:"debug_log_packages,omitempty"`
 }
 
 type delivered struct {
@@ -70,7 +73,7 @@ func toLibPacket(p rc.Packet) *tds.Packet {
 func runPackets(packets []rc.Packet, sendAt ...int) (d delivered, f *vh.Failure) {
 	ctx, cancel := context.WithCancel(context.Background())
 	defer cancel()
-	conn, _, err := tds.VerifNewConn(ctx, peer.NewPipe(), &tds.Info{ChannelPackageQueueSize: 4096}, false)
+	conn, _, err := tds.VerifNewConn(ctx, peer.NewPipe(), &tds.Info{ChannelPackageQueueSize: 4096, DebugLogPackages: len(sendAt) > 1 && sendAt[1] == 1}, false)
 	if err != nil {
 		vh.HarnessBug("VerifNewConn: %v", err)
 	}
@@ -94,10 +97,10 @@ func runPackets(packets []rc.Packet, sendAt ...int) (d delivered, f *vh.Failure)
 }
 
 // runBytes feeds the TCP byte stream through the real reader goroutine.
-func runBytes(stream []byte, reads []int, eofWithData bool) (d delivered, f *vh.Failure) {
+func runBytes(stream []byte, reads []int, eofWithData bool, logPkgs ...bool) (d delivered, f *vh.Failure) {
 	ctx, cancel := context.WithCancel(context.Background())
 	pipe := peer.NewPipe()
-	conn, done, err := tds.VerifNewConn(ctx, pipe, &tds.Info{ChannelPackageQueueSize: 100000, PacketReadTimeout: 5}, true)
+	conn, done, err := tds.VerifNewConn(ctx, pipe, &tds.Info{ChannelPackageQueueSize: 100000, PacketReadTimeout: 5, DebugLogPackages: len(logPkgs) > 0 && logPkgs[0]}, true)
 	if err != nil {
 		vh.HarnessBug("VerifNewConn: %v", err)
 	}
@@ -228,9 +231,9 @@ func runCase(c c02Case) (f *vh.Failure) {
 				}
 			}
 		}
-		B, f = runBytes(tcp, c.Reads, c.EOFWithData)
+		B, f = runBytes(tcp, c.Reads, c.EOFWithData, c.Log)
 	} else {
-		B, f = runPackets(packets, c.SendAt)
+		B, f = runPackets(packets, c.SendAt, map[bool]int{true: 1}[c.Log])
 	}
 	if f != nil {
 		return f
@@ -282,6 +285,9 @@ func runCase(c c02Case) (f *vh.Failure) {
 	}
 	if c.SendAt > 0 {
 		vh.Label("request-completes-while-response-arrives")
+	}
+	if c.Log {
+		vh.Label("debug-log-packages")
 	}
 	if c.Byte {
 		vh.Label("level:byte")
@@ -357,6 +363,7 @@ func TestPacketLevel(t *testing.T) {
 		if rapid.IntRange(0, 3).Draw(rt, "sendlate") == 0 {
 			c.SendAt = rapid.IntRange(1, 4).Draw(rt, "sendat")
 		}
+		c.Log = rapid.IntRange(0, 3).Draw(rt, "log") == 0
 		if len(stream) < 60 {
 			vh.Sample("packet-level", c)
 		}
@@ -374,6 +381,7 @@ func TestByteLevel(t *testing.T) {
 		}
 		c := c02Case{Pkgs: ps, Cuts: respgen.Cuts(rt, len(stream), true), Byte: true, Extra: genExtra(rt), EOFWithData: rapid.IntRange(0, 4).Draw(rt, "eofwithdata") == 0}
 		c.Reads = genReads(rt, rc.Packetise(stream, c.Cuts, rc.BufResponse, 0))
+		c.Log = rapid.IntRange(0, 3).Draw(rt, "log") == 0
 		if len(stream) < 60 {
 			vh.Sample("byte-level", c)
 		}
